@@ -44,6 +44,10 @@ CHECKS = {
                 technique="bounded-exhaustive enumeration of control-plane values x both encodings x all single-token mutations against strict reference parsers",
                 text="Generated ProxyClusterMeta / ReplicatorMeta / MigrationTaskMeta values are encoded by the real encoders; each encoding (plain, compressed) must decode to an equal value, and every single-token deletion, truncation and replacement (and 64 single-character corruptions of each compressed payload) is judged by a strict reference parser: not an encoding => the real parser must reject, an encoding of w => the real parser must return w.",
                 note="Trusted: reference parsers in c17.rs (tolerant where the real grammar is deliberately open: unknown flags ignored, '+' in numbers, tokens after a complete task descriptor). The broker-produced messages and the INFOMGR->commit journey are covered once simnet exists."),
+    "C20": dict(engine="simnet", cat="model_checking", ref="3/C20",
+                technique="bounded-exhaustive enumeration of strategy x topology x write shape x read shape x value on real proxies with a storing Redis stand-in",
+                text="Every combination of compression strategy {disabled, set_get_only, allow_all}, topology {owner proxy; non-owner proxy with active redirection, without and with UMFORWARD}, 11 write shapes (SET with/without EX/NX/PX XX, SETEX, PSETEX, SETNX, GETSET, MSET 1/3 pairs, MSETNX), value class (empty, 1 byte, all 256 byte values, RESP look-alike, incompressible, zeros, a zstd frame, OK, integer text) and read shape (GET, MGET with a missing key, GETSET) is executed; oracle: reads return the written bytes, the node stores a payload that zstd-decodes to the value with the original ttl, keys/options/non-string replies untouched, the 14 string-content commands refused and not forwarded under set_get_only, nothing altered under disabled.",
+                note="Trusted: the Redis stand-in; zstd crate for the decode check. Values are a finite class menu, not all byte strings."),
 }
 
 NOT_YET = {
